@@ -112,6 +112,8 @@ pub fn triggers(src: &str, root: &SyntaxNode) -> Vec<&'static str> {
             // R37: typstyle splits block comments at LF / CRLF only; other line terminators inside
             // a comment stay in the middle of a "line" and the re-alignment differs between passes.
             K::BlockComment if f.node.text().chars().any(|c| syn::is_nl(c) && c != '\n') => add("R37"),
+            // R24 (second form): a `;` that terminates embedded code inside math
+            K::Semicolon if in_math[i] && f.parent_idx.is_some_and(|p| flat[p].node.children().any(|c| c.kind() == K::Hash)) => add("R24"),
             K::Linebreak if in_math[i] => {
                 let next = leaves[li + 1..].iter().map(|&j| &flat[j]).find(|g| g.node.kind() != K::Space);
                 if let Some(n) = next {
@@ -126,6 +128,47 @@ pub fn triggers(src: &str, root: &SyntaxNode) -> Vec<&'static str> {
     // sibling-based rules
     for f in flat.iter() {
         let kids: Vec<&SyntaxNode> = f.node.children().collect();
+        // R49: a comment inside code that sits on a markup line which also holds text (optional
+        // line breaks are suppressed there): the layout with the comment differs from pass to pass
+        if f.node.kind() == K::Markup {
+            let mut line_text = false;
+            let mut line_cmt_in_code = false;
+            for c in kids.iter() {
+                let brk = c.kind() == K::Parbreak || (c.kind() == K::Space && syn::has_nl(c.text()));
+                if brk {
+                    if line_text && line_cmt_in_code {
+                        add("R49");
+                    }
+                    line_text = false;
+                    line_cmt_in_code = false;
+                    continue;
+                }
+                match c.kind() {
+                    K::Text | K::Strong | K::Emph | K::Raw => line_text = true,
+                    K::Space | K::Hash | K::LineComment | K::BlockComment => {}
+                    _ => {
+                        if syn::any_node(c, &mut |x| syn::is_comment(x.kind())) {
+                            line_cmt_in_code = true;
+                        }
+                    }
+                }
+            }
+            if line_text && line_cmt_in_code {
+                add("R49");
+            }
+        }
+        // R50: a comment between the dot and the field name of a field access
+        if f.node.kind() == K::FieldAccess {
+            let mut after_dot = false;
+            for c in &kids {
+                match c.kind() {
+                    K::Dot => after_dot = true,
+                    K::Space => {}
+                    k if syn::is_comment(k) && after_dot => add("R50"),
+                    _ => after_dot = false,
+                }
+            }
+        }
         for w in 0..kids.len() {
             let c = kids[w];
             if !syn::is_comment(c.kind()) {
@@ -148,6 +191,9 @@ pub fn triggers(src: &str, root: &SyntaxNode) -> Vec<&'static str> {
                         }
                         continue;
                     }
+                    if p.kind() == K::Comma {
+                        continue;
+                    }
                     if syn::has_nl(&syn::text_of(p)) {
                         add("R33");
                     }
@@ -158,6 +204,46 @@ pub fn triggers(src: &str, root: &SyntaxNode) -> Vec<&'static str> {
     }
     for (i, f) in flat.iter().enumerate() {
         let k = f.node.kind();
+        // rules whose node kinds overlap get a match of their own
+        match k {
+            // R33: a multi-line block comment in an argument list that also holds a multi-line raw
+            // or string argument is re-aligned relative to a column that moves between passes.
+            K::Args | K::Array | K::Dict | K::Keyed | K::Named | K::Params | K::Destructuring | K::Parenthesized
+                if f.node.children().any(|c| c.kind() == K::BlockComment && syn::has_nl(c.text()))
+                    && syn::any_node(f.node, &mut |x| matches!(x.kind(), K::Raw | K::Str) && syn::has_nl(&syn::text_of(x))) =>
+            {
+                add("R33");
+                if in_math[i] && k == K::Args {
+                    add("R39");
+                }
+            }
+            _ => {}
+        }
+        match k {
+            // R39: comments inside the argument list of a math call (with 2-D rows, delimiters and
+            // line breaks around them) are placed differently from pass to pass.
+            K::Args | K::Array if in_math[i] && f.node.children().any(|c| syn::is_comment(c.kind())) => add("R39"),
+            _ => {}
+        }
+        match k {
+            // R40: 2-D math arguments with an empty cell or row (two separators in a row, a separator
+            // right after `(` or right before `)`): blanks around them differ between passes.
+            K::Args if in_math[i] && f.node.children().any(|c| c.kind() == K::Semicolon) && {
+                let sig: Vec<K> = f.node.children().filter(|c| c.kind() != K::Space).map(|c| c.kind()).collect();
+                let sep = |k: K| matches!(k, K::Comma | K::Semicolon);
+                let mut empty_cell = sig.windows(2).any(|w| (sep(w[0]) || w[0] == K::LeftParen) && (sep(w[1]) || w[1] == K::RightParen));
+                // rows are arrays: a row that ends with a comma
+                empty_cell |= f.node.children().any(|c| c.kind() == K::Array && c.children().filter(|x| x.kind() != K::Space).last().is_some_and(|x| x.kind() == K::Comma));
+                empty_cell
+            } => add("R40"),
+            _ => {}
+        }
+        match k {
+            // R28: blanks inside an attachment are dropped, also between two groups of primes
+            // (`$f' '^2$` -> `$f''^2$`).
+            K::MathAttach if f.node.children().filter(|c| c.kind() == K::MathPrimes).count() >= 2 => add("R28"),
+            _ => {}
+        }
         match k {
             K::Raw => {
                 if ends_line_with_blank(&syn::text_of(f.node)) {
@@ -172,6 +258,11 @@ pub fn triggers(src: &str, root: &SyntaxNode) -> Vec<&'static str> {
             // R3: parentheses around a number literal are dropped although what follows then fuses
             // with the number (`#(1).` -> `#1.`, `#(1)em`, `(2.).x` -> `2..x`, `$#(7)n$` -> `$#7n$`).
             K::Parenthesized => {
+                // R48: parentheses nested directly in parentheses with a comment inside: one layer is
+                // removed per pass
+                if f.node.children().any(|c| c.kind() == K::Parenthesized) && syn::any_node(f.node, &mut |x| syn::is_comment(x.kind())) {
+                    add("R48");
+                }
                 // innermost expression below any number of nested parentheses
                 let mut cur = f.node;
                 let mut only = true;
@@ -199,30 +290,6 @@ pub fn triggers(src: &str, root: &SyntaxNode) -> Vec<&'static str> {
                     }
                 }
             }
-            // R33: a multi-line block comment in an argument list that also holds a multi-line raw
-            // or string argument is re-aligned relative to a column that moves between passes.
-            K::Args | K::Array | K::Dict | K::Keyed | K::Named | K::Params | K::Destructuring | K::Parenthesized
-                if f.node.children().any(|c| c.kind() == K::BlockComment && syn::has_nl(c.text()))
-                    && syn::any_node(f.node, &mut |x| matches!(x.kind(), K::Raw | K::Str) && syn::has_nl(&syn::text_of(x))) =>
-            {
-                add("R33");
-                if in_math[i] && k == K::Args {
-                    add("R39");
-                }
-            }
-            // R39: comments inside the argument list of a math call (with 2-D rows, delimiters and
-            // line breaks around them) are placed differently from pass to pass.
-            K::Args | K::Array if in_math[i] && f.node.children().any(|c| syn::is_comment(c.kind())) => add("R39"),
-            // R40: 2-D math arguments with an empty cell or row (two separators in a row, a separator
-            // right after `(` or right before `)`): blanks around them differ between passes.
-            K::Args if in_math[i] && f.node.children().any(|c| c.kind() == K::Semicolon) && {
-                let sig: Vec<K> = f.node.children().filter(|c| c.kind() != K::Space).map(|c| c.kind()).collect();
-                let sep = |k: K| matches!(k, K::Comma | K::Semicolon);
-                let mut empty_cell = sig.windows(2).any(|w| (sep(w[0]) || w[0] == K::LeftParen) && (sep(w[1]) || w[1] == K::RightParen));
-                // rows are arrays: a row that ends with a comma
-                empty_cell |= f.node.children().any(|c| c.kind() == K::Array && c.children().filter(|x| x.kind() != K::Space).last().is_some_and(|x| x.kind() == K::Comma));
-                empty_cell
-            } => add("R40"),
             // R41: a table / grid call whose `columns` value is wrapped in parentheses: the first
             // pass removes them, only the second pass then recognises the column count and re-flows
             // the cells.
@@ -295,6 +362,24 @@ pub fn triggers(src: &str, root: &SyntaxNode) -> Vec<&'static str> {
             // R32: a code block whose only statement is an import with an item list: when the item
             // list has to be broken the block is not, and the next pass lays it out differently.
             K::CodeBlock => {
+                // R46: a code block holding nothing but comments
+                let n_exprs = f
+                    .node
+                    .children()
+                    .find(|c| c.kind() == K::Code)
+                    .map(|code| code.children().filter(|c| c.cast::<syn::ast::Expr>().is_some()).count())
+                    .unwrap_or(0);
+                let direct_comment = f.node.children().any(|c| syn::is_comment(c.kind()))
+                    || f.node.children().filter(|c| c.kind() == K::Code).any(|c| c.children().any(|x| syn::is_comment(x.kind())));
+                if direct_comment && (n_exprs == 0 || !syn::has_nl(&syn::text_of(f.node))) {
+                    add("R46");
+                }
+                // R51: several statements on one source line (`{3;e}`): the block has to be broken;
+                // inside a call on a text line or inside math the enclosing list is only broken by
+                // the second pass, which sees a multi-line argument
+                if n_exprs >= 2 && !syn::has_nl(&syn::text_of(f.node)) {
+                    add("R51");
+                }
                 if let Some(code) = f.node.children().find(|c| c.kind() == K::Code) {
                     let mut exprs = code.children().filter(|c| c.cast::<syn::ast::Expr>().is_some());
                     let first = exprs.next();
@@ -313,9 +398,6 @@ pub fn triggers(src: &str, root: &SyntaxNode) -> Vec<&'static str> {
             {
                 add("R44")
             }
-            // R28: blanks inside an attachment are dropped, also between two groups of primes
-            // (`$f' '^2$` -> `$f''^2$`).
-            K::MathAttach if f.node.children().filter(|c| c.kind() == K::MathPrimes).count() >= 2 => add("R28"),
             // R21: a list / enum / term item whose body (or term) is empty: the blank after the
             // marker is dropped and the marker becomes text (`[- ]` -> `[-]`).
             K::ListItem | K::EnumItem | K::TermItem => {
@@ -327,6 +409,15 @@ pub fn triggers(src: &str, root: &SyntaxNode) -> Vec<&'static str> {
                 let no_markup = !f.node.children().any(|c| c.kind() == K::Markup);
                 if empty || no_markup {
                     add("R21");
+                }
+                // R9: a comment as the first thing of an item body (on the line after the marker)
+                // is indented by unit + 1
+                let comment_first = f.node.children().filter(|c| c.kind() == K::Markup).any(|m| {
+                    m.children().find(|x| x.kind() != K::Space).is_some_and(|x| syn::is_comment(x.kind()))
+                });
+                // (or directly inside the item, between marker / colon and body)
+                if comment_first || f.node.children().any(|c| syn::is_comment(c.kind())) {
+                    add("R9");
                 }
                 // R22: an item whose body starts with another item on the same line (`+ - x`):
                 // continuation lines are re-indented by tab_spaces, which for tab_spaces >= 3
